@@ -106,4 +106,30 @@ theorem withColumn_replaces_iff (colName : String) (names : Names) :
     · have hn' : ¬ colName = n := fun h => hn h.symm
       simp [hn, hn']
 
+/-- the name an element of the projection carries: `new_col` is `parse(col).alias(colName)`, a field reference carries the
+name of the field at its position -/
+def colRefName (colName : String) (names : Names) : ColRef → Option String
+  | .new => some colName
+  | .at p => names[p]?
+
+-- OBLIGATION: PysparklingVerif.Extracted.C15.withColumn_selection_names
+/-- `withColumn` on an existing name leaves the NAMES of the frame as they are, position by position, and the projection has
+one element per column: the schema and the rows of the result - both produced from this one projection by `select` - carry
+the same names (C15's invariant), also when a name occurs several times -/
+theorem withColumn_selection_names (colName : String) (names : Names) :
+    (withColumnSelection colName names).map (colRefName colName names) = names.map some ∧
+    (withColumnSelection colName names).length = names.length := by
+  constructor
+  · apply List.ext_getElem?
+    intro j
+    unfold withColumnSelection
+    simp only [List.getElem?_map, List.getElem?_zipIdx]
+    by_cases hj : j < names.length
+    · simp [List.getElem?_eq_getElem hj]
+      by_cases hn : names[j] = colName
+      · simp [hn, colRefName]
+      · simp [hn, colRefName, List.getElem?_eq_getElem hj]
+    · simp [List.getElem?_eq_none (Nat.le_of_not_lt hj)]
+  · simp [withColumnSelection]
+
 end PysparklingVerif.Extracted.C15
